@@ -375,10 +375,36 @@ WrapHolds(pi, id, f, v, pre, post) ==
   /\ ty \in IntTypes /\ ~IsSigned(ty) /\ Narrow(pl, ty) /\ f.k \in {"eq", "gt", "lt"}
   /\ \/ Holds(pi, id, f, v + Pow2(Bits(pl, ty)), pre, post)
      \/ Holds(pi, id, f, v - Pow2(Bits(pl, ty)), pre, post)
+\* "narrowing-range": on a node of a signed type narrower than int the impossible range holds for v + 2^N or v - 2^N
+\*     but not for v: the range of the wider source expression was kept across the conversion to the narrow type.
+\* "cast-unconverted" / "call-return-unconverted": the known value of a cast / of a call is the value before the
+\*     conversion to the cast type / return type (congruent modulo 2^N, e.g. (signed char)(-2) known 254).
+\* "ternary-other-branch": the fact on c ? a : b holds for the branch that was NOT taken (values of one branch are
+\*     attached to the whole conditional expression).
+NarrowRangeHolds(pi, id, f, v, pre, post) ==
+  LET ty == N(pi, id).ty pl == PL(pi) IN
+  /\ ty \in IntTypes /\ IsSigned(ty) /\ Rank(ty) < 3 /\ f.k \in {"gt", "lt"}
+  /\ \/ Holds(pi, id, f, v + Pow2(Bits(pl, ty)), pre, post)
+     \/ Holds(pi, id, f, v - Pow2(Bits(pl, ty)), pre, post)
+Congruent(pi, id, f, v) ==
+  LET ty == N(pi, id).ty pl == PL(pi) IN
+  ty \in IntTypes /\ Narrow(pl, ty) /\ f.k = "eq" /\ f.v # v /\ f.v % Pow2(Bits(pl, ty)) = v % Pow2(Bits(pl, ty))
+OtherBranchHolds(pi, id, f, pre, post) ==
+  LET n == N(pi, id) IN
+  /\ n.k = "cond"
+  /\ LET c == E(pi, n.a, pre) IN
+     /\ c.s = "ok"
+     /\ LET o == E(pi, IF c.v # 0 THEN n.c ELSE n.b, c.st) IN
+        /\ o.s = "ok"
+        /\ LET cv == Conv(PL(pi), n.ty, o.v) IN cv.s = "ok" /\ Holds(pi, id, f, cv.v, pre, post)
 ClassOf(pi, id, f, v, pre, post) ==
   IF f.k = "eq" /\ f.v = 1 /\ v # 0 /\ BoolCtx(pi, id, f.par) THEN "truthy-known-1"
   ELSE IF f.k \in {"gt", "lt"} /\ N(pi, id).k = "un" /\ N(pi, id).op = "~" THEN "bitnot-range"
+  ELSE IF OtherBranchHolds(pi, id, f, pre, post) THEN "ternary-other-branch"
+  ELSE IF N(pi, id).k = "cast" /\ Congruent(pi, id, f, v) THEN "cast-unconverted"
+  ELSE IF N(pi, id).k = "callx" /\ Congruent(pi, id, f, v) THEN "call-return-unconverted"
   ELSE IF WrapHolds(pi, id, f, v, pre, post) THEN "unsigned-nowrap"
+  ELSE IF NarrowRangeHolds(pi, id, f, v, pre, post) THEN "narrowing-range"
   ELSE IF f.k # "seq" THEN ""
   ELSE LET sv == SymVal(pi, f, pre, post) IN
        IF sv = <<>> \/ ~SafeAdd(sv[1], f.v) THEN ""
